@@ -11,7 +11,10 @@ it builds spec-encoded bytes and echoes the xids it read from the bytes the cont
  (c) breadth-first search with state matching over histories of {open(i), deliver-next(i), close(i),
      send-error(i)} on 3 connections over 2 datapath ids;
  (d) every merge order of the handshake deliveries of 2 and of 3 connections of one datapath id
-     (a connection accepted first may complete last), followed by every short sequence of closes.
+     (a connection accepted first may complete last), followed by every short sequence of closes;
+ (e) the same life-cycle driven through the REAL OpenFlow_01_Task.run loop (scripted listener,
+     non-blocking sockets, honest select) with messages split across reads and read-size boundaries
+     (pending bytes exactly 2047/2048/2049/4095/4096/4097, features replies of 41..86 ports).
 
 Oracle: mc.refs.c09_lifecycle.Ref, evaluated after every operation (events on the nexus and on the
 Connection, the registry, and a sendToDPID probe for every datapath id).
@@ -127,8 +130,16 @@ class World (object):
     return self.peers[i].absorb(self.st.take_tx(self.cidx[i]))
 
   # ---- operations -------------------------------------------------------------
+  loop = "harness"      # who plays the I/O loop: the harness (Connection.read / close called directly) or the real task
+
+  def _accept (self, i):
+    self.st.connect()
+
+  def _feed (self, i, data, cuts):
+    return self.st.feed(self.cidx[i], data)
+
   def open (self, i):
-    self.guarded("Connection()", self.st.connect)
+    self.guarded("Connection()", self._accept, i)
     k = len(self.st.cons) - 1
     self.cidx[i] = k; self.slot_of[k] = i
     self.nlog[i] = []; self.clog[i] = []
@@ -139,9 +150,10 @@ class World (object):
     self.lines.append("open(%d) dpid %d: controller wrote %s" % (i, self.dpids[i], tx))
     return self.check(i, "open", tx)
 
-  def deliver (self, i, items, fail=False):
+  def deliver (self, i, items, fail=False, cuts=()):
     """One recv() chunk made of the given (kind, serial) items; with fail, the first send the
-    controller attempts while handling it raises EPIPE."""
+    controller attempts while handling it raises EPIPE.  cuts (real-loop worlds only): byte offsets
+    at which the chunk is split into separately arriving segments."""
     peer = self.peers[i]
     data = b"".join(peer.build(k, s) for k, s in items)
     sock = self.con(i).sock
@@ -150,7 +162,9 @@ class World (object):
     raised = None
     self.transitions += 1
     try:
-      r = self.st.feed(self.cidx[i], data)
+      r = self._feed(i, data, cuts)
+    except Stop:
+      raise
     except Exception as e:
       # OpenFlow_01_Task.run catches whatever escapes read(), logs it and closes the connection.
       # The statement does not forbid that, so the oracle only follows the life-cycle from here.
@@ -159,7 +173,9 @@ class World (object):
       r = "raised " + raised
     fired = any(o == "epipe" for n, o in sock.sends[nsend0:])
     sock.send_script = []
-    if raised: self.ref.lost(i)       # how far into the chunk the controller got is unknown
+    healthy = self.ref.cons[i].live and not raised and not fired
+    stage = self.ref.cons[i].stage
+    if raised or r is False: self.ref.lost(i)       # how far into the chunk the controller got is unknown
     # reference: messages in arrival order; the failed send (if it fired) belongs to the first
     # message that makes a controller write
     marked = False
@@ -170,13 +186,21 @@ class World (object):
         self.ref.lost(i); marked = True
     if fired and not marked: self.ref.lost(i)
     tx = self.absorb(i)
-    self.lines.append("deliver(%d) %s%s: read() -> %r, controller wrote %s" % (
-      i, "+".join(k for k, s in items), " [first send fails: EPIPE%s]" % ("" if fired else ", not reached") if fail else "", r, tx))
+    self.lines.append("deliver(%d) %s%s%s: %s -> %r, controller wrote %s" % (
+      i, "+".join(k for k, s in items), " (%d bytes, segments cut at %r)" % (len(data), list(cuts)) if cuts or self.loop == "task" else "",
+      " [first send fails: EPIPE%s]" % ("" if fired else ", not reached") if fail else "",
+      "read()" if self.loop == "harness" else "connection still served by the loop", r, tx))
     if r is False or raised:
       # the I/O loop closes a connection whose read() returns False or raises
       self.lines.append("  read() %s for well-formed input: the I/O loop closes the connection" % ("raised" if raised else "returned False"))
-      self.guarded("Connection.close", self.st.close, self.cidx[i])
+      if self.loop == "harness": self.guarded("Connection.close", self.st.close, self.cidx[i])
       self.ref.closed(i)
+      if healthy:
+        # nothing was wrong with the connection or its input: it can no longer be announced (or gets a
+        # ConnectionDown although it was not lost)
+        self.fail("lifecycle:healthy-connection-closed-by-loop",
+                  "connection %d (stage %s) received well-formed bytes (%d bytes, segments cut at %r), read() did not return True and the I/O loop closed it"
+                  % (i, stage, len(data), list(cuts)))
     return self.check(i, "deliver-fail" if fired else "deliver", (tx, r))
 
   def close (self, i):
@@ -623,6 +647,200 @@ def _d_worker (item):
   return rep
 
 
+# =============================================================================
+# part (e): the REAL OpenFlow_01_Task.run loop, handshake / life-cycle streams under segmentations
+# =============================================================================
+class TaskWorld (World):
+  """World whose I/O loop is the real OpenFlow_01_Task.run generator (driver pieces shared with
+  mc.props.c10): a fake `socket` module hands out a scripted listener, every yielded Select is answered
+  honestly (a connection is readable iff its scripted non-blocking socket has pending bytes, saw EOF
+  or was shut down), so read() is only ever called with bytes pending - like after a real select - and
+  a connection the loop closes is noticed because it leaves the select set."""
+  loop = "task"
+
+  def __init__ (self, dpids):
+    World.__init__(self, dpids)
+    from mc.props.c10 import CSock, FakeListener, FakeSocketModule
+    self.CSock = CSock
+    of01 = self.of01
+    self.st.core.running = True
+    self.lst = FakeListener()
+    self._old_socket = of01.socket
+    of01.socket = FakeSocketModule(self.lst)
+    task = object.__new__(of01.OpenFlow_01_Task)      # no core listener, no Task bookkeeping
+    task.port = 6633; task.address = "0.0.0.0"; task.started = True
+    task.ssl_key = task.ssl_cert = task.ssl_ca_cert = None
+    self.g = task.run()
+    self.sel = None
+    self.step([])
+
+  def dispose (self):
+    try:
+      self.st.core.running = False
+      self.g.close()
+    except BaseException:
+      pass
+    finally:
+      self.st.core.running = True
+      self.of01.socket = self._old_socket
+    World.dispose(self)
+
+  def rlist (self):
+    return self.sel._args[0]
+
+  def step (self, r):
+    self.transitions += 1
+    if self.sel is not None and any(x.fileno() < 0 for x in self.rlist()):
+      self.fail("loop:closed-socket-left-in-select-set", "the loop selects on a closed socket (select raises ValueError, the select hub dies)")
+      raise Stop()
+    try:
+      if self.sel is None: self.sel = next(self.g)
+      else: self.sel = self.g.send((list(r), [], []))
+    except StopIteration:
+      self.fail("loop:ended", "OpenFlow_01_Task.run returned"); raise Stop()
+    except Exception as e:
+      self.fail("loop:died:%s:%s" % (pox_site(sys.exc_info()[2]), type(e).__name__), "OpenFlow_01_Task.run raised %s: %s" % (type(e).__name__, e))
+      raise Stop()
+
+  def _accept (self, i):
+    s = self.CSock(("switch", 100 + i))
+    self.lst.q.append(s)
+    before = set(id(x) for x in self.rlist())
+    self.step([self.lst])
+    new = [x for x in self.rlist() if id(x) not in before and x is not self.lst]
+    if len(new) != 1:
+      self.fail("loop:accept", "accepting a connection added %d objects to the select set" % len(new)); raise Stop()
+    self.st.cons.append(new[0])
+
+  def serve (self, i):
+    """Answer selects until connection i has nothing pending or has left the select set."""
+    con = self.con(i); sock = con.sock
+    for n in range(64):
+      if con not in self.rlist(): return False
+      if not (sock.rx or sock.eof or sock.rd_shut): return True
+      self.step([con])
+    self.fail("loop:livelock", "connection %d is still readable after 64 select rounds" % i)
+    raise Stop()
+
+  def _feed (self, i, data, cuts):
+    sock = self.con(i).sock
+    offs = [0] + [c for c in cuts if 0 < c < len(data)] + [len(data)]
+    for a, b in zip(offs, offs[1:]):
+      if b <= a: continue
+      sock.rx.append(bytes(data[a:b]))      # what is pending when select reports the socket readable
+      if not self.serve(i): return False
+    return True
+
+  def close (self, i):
+    """The switch closes the connection: recv() returns b'' and the loop closes its side."""
+    self.con(i).sock.eof = True
+    if self.serve(i):
+      self.fail("loop:eof-ignored", "connection %d hit end-of-stream but stays in the select set" % i); raise Stop()
+    self.ref.closed(i)
+    self.lines.append("eof(%d): the switch closed the connection, the loop closed its side" % i)
+    return self.check(i, "close", None)
+
+
+_LEN = {}
+def item_len (kind, serial=0, nports=2):
+  """Length in bytes of a scripted message (does not depend on xids)."""
+  k = (kind, serial if kind == "echo-pad" else 0, nports if kind == "features" else 0)
+  if k not in _LEN:
+    p = L.Peer(1); p.features_xid = p.desc_xid = p.barrier_xid = 0; p.barrier_raw = W.barrier_request(0)
+    p.ports = tuple(range(1, nports + 1))
+    _LEN[k] = len(p.build(kind, serial))
+  return _LEN[k]
+
+
+def e_chunks (last, tail):
+  c1 = [("features", 0)]
+  if tail == "ps": c1.append(("ps-add", 1))
+  elif isinstance(tail, int): c1.append(("echo-pad", tail))
+  return [[("hello", 0)], c1, [("desc", 0)], [(last, 0)], [("ps-mod", 2), ("echo", 3)]]
+
+
+def gen_e_cases (thorough):
+  """(pre, nports, last, tail, {chunk index: cuts})"""
+  cases = []
+  for pre in (False, True):
+    for last in ("barrier", "barrier-unsup"):
+      # 1. every message of the stream split in two (quick: boundary offsets; thorough: every offset)
+      ch = e_chunks(last, "ps")
+      cases.append((pre, 2, last, "ps", {}))
+      for ci, items in enumerate(ch):
+        lens = [item_len(k, s) for k, s in items]
+        tot = sum(lens)
+        if thorough: offs = range(1, tot)
+        else:
+          offs = set([1, 4, 7, 8, 9, 12, tot // 2, tot - 8, tot - 1])
+          acc = 0
+          for l in lens[:-1]:
+            acc += l; offs |= set([acc - 1, acc, acc + 1, acc + 4, acc + 8])
+          offs = sorted(o for o in offs if 0 < o < tot)
+        for o in offs: cases.append((pre, 2, last, "ps", {ci: (o,)}))
+        if tot <= 20:        # short messages: every way to cut them twice, and a cut in every chunk at once
+          for a in range(1, tot):
+            for b in range(a + 1, tot): cases.append((pre, 2, last, "ps", {ci: (a, b)}))
+      cases.append((pre, 2, last, "ps", {0: (4,), 1: (100,), 2: (8,), 3: (4,), 4: (70,)}))
+      # 2. read-size boundaries: the features reply of an n-port switch is 32 + 48 n bytes
+      for nports, pads in ((41, (40,)), (42, ()), (43, ()), (84, (24,)), (85, ()), (86, ())):
+        for tail in (None, "ps") + pads:
+          tot = sum(item_len(k, s, nports) for k, s in e_chunks(last, tail)[1])
+          cases.append((pre, nports, last, tail, {}))
+          for P in (2047, 2048, 2049, 4095, 4096, 4097):
+            if P < tot: cases.append((pre, nports, last, tail, {1: (P,)}))
+  return cases
+
+
+def run_task_case (case):
+  pre, nports, last, tail, cutmap = case
+  cutmap = {int(k): tuple(v) for k, v in cutmap.items()}
+  w = TaskWorld([1, 1])
+  outs = []
+  try:
+    try:
+      if pre:
+        # connection 0 of the same datapath is already announced (whole messages)
+        outs.append(w.open(0))
+        for items in e_chunks("barrier", "ps")[:4]:
+          if w.bad: raise Stop()
+          outs.append(w.deliver(0, items))
+      if w.bad: raise Stop()
+      outs.append(w.open(1))
+      w.peers[1].ports = tuple(range(1, nports + 1))
+      for ci, items in enumerate(e_chunks(last, tail)):
+        if w.bad: raise Stop()
+        if not all(w.peers[1].can(k) for k, s in items):
+          w.fail("handshake:stalled:no-%s-request" % items[0][0], "the switch never received the request it has to answer with '%s' (controller wrote %r)" % (items[0][0], w.peers[1].got))
+          raise Stop()
+        outs.append(w.deliver(1, items, cuts=cutmap.get(ci, ())))
+      if w.bad: raise Stop()
+      if pre:
+        outs.append(w.close(0))         # the older connection goes first (the other order is the known no-fallback shape)
+        if w.bad: raise Stop()
+      outs.append(w.close(1))
+    except Stop:
+      pass
+  finally:
+    w.dispose()
+  return w, outs
+
+
+def _e_worker (cases):
+  from mc.env import boot
+  boot()
+  rep = Report(PID, "model_checking")
+  for case in cases:
+    w, outs = run_task_case(case)
+    rep.evaluations += 1
+    rep.transitions += w.transitions
+    rep.outcome(("task", tuple(outs)))
+    data = dict(part="e", pre=case[0], nports=case[1], last=case[2], tail=case[3], cuts={str(k): list(v) for k, v in case[4].items()})
+    for k, what in w.bad: rep.violation(k, what, data)
+    if not w.bad and rep.evaluations % 97 == 5: rep.sample(dict(case=data, trace=w.lines))
+  return rep
+
+
 UP0 = (("open", 0), ("deliver", 0), ("deliver", 0), ("deliver", 0))
 
 
@@ -643,12 +861,18 @@ def run (cfg):
               "on 3 connections (datapath ids %s), from the empty controller and from a controller with connection 0 already announced; per-connection script "
               "[hello][features reply + port-status][barrier reply | barrier-unsupported error][port-status]; (d) every merge order of the three handshake "
               "deliveries of 2 (20 orders) and 3 (1680 orders) connections of ONE datapath id accepted in index order, each followed by every sequence of <=%d "
-              "closes (covers a connection accepted first completing its handshake last). After every operation: events on nexus and "
+              "closes (covers a connection accepted first completing its handshake last); (e) the REAL OpenFlow_01_Task.run generator over a scripted "
+              "listener and non-blocking sockets with an honest select: the stream [hello][features reply + port-status][desc][barrier reply | "
+              "unsupported][port-status + echo request] then end-of-stream, alone and next to an announced connection of the same datapath, with "
+              "%s chunk cut in two at %s, short messages cut twice, all chunks cut at once, and features replies of 41/42/43/84/85/86 ports "
+              "(2000..4160 bytes; 42 ports = exactly 2048) with nothing / a port-status / an echo request padding to exactly 2048 or 4096 behind, "
+              "pending bytes at a read cut at 2047/2048/2049/4095/4096/4097. After every operation: events on nexus and "
               "Connection, the registry (items()) and a sendToDPID probe per datapath id are compared with the reference life-cycle, and every other "
               "registry view (getConnection, [dpid], membership by dpid and by connection, keys(), values(), iteration, len, .dpids, iter_dpids()) "
               "is read and compared with items(). distinct = (script shape, loss, "
               "observation sequence) for (a)/(b), (last op, observation) for (c)"
-              % (kmax, list(kinds), depth, " / ".join(str(r[0]) for r in roots), cfg.pick(1, 2)))
+              % (kmax, list(kinds), depth, " / ".join(str(r[0]) for r in roots), cfg.pick(1, 2),
+                 "every", cfg.pick("header / message-boundary / middle / tail offsets", "every byte offset")))
   rep.bound = dict(async_messages=kmax, async_kinds=list(kinds), bfs_depth=depth, connections=3, datapath_ids=2)
   rep.assumptions = [
     "the peer is a faithful switch: it answers only requests it received, with the xid it read from the controller's bytes",
@@ -677,6 +901,14 @@ def run (cfg):
       rep.merge(r)
     rep.extra["merge_orders"] = len(cases)
     rep.state_count += rep.evaluations - n0
+  # ---- (e)
+  if only in (None, "e"):
+    cases = gen_e_cases(not cfg.quick)
+    n0 = rep.evaluations
+    for r in pmap(_e_worker, split(cases, max(1, cfg.workers * 4)), cfg.workers, seed=cfg.seed):
+      rep.merge(r)
+    rep.extra["real_loop_cases"] = len(cases)
+    rep.state_count += rep.evaluations - n0
   # ---- (c)
   if only in (None, "c"):
     for dpids, root, d in roots:
@@ -693,6 +925,9 @@ def replay (cfg, data):
     if chunks is None: chunks = chunkings(asyncs, data["last"])[0][1]
     loss = tuple(data["loss"]) if data.get("loss") else None
     w, outs = run_script(chunks, loss)
+    return bool(w.bad), "\n".join(w.lines + ["=> %r" % ([k for k, _ in w.bad],)])
+  if data.get("part") == "e":
+    w, outs = run_task_case((data["pre"], data["nports"], data["last"], data["tail"], data["cuts"]))
     return bool(w.bad), "\n".join(w.lines + ["=> %r" % ([k for k, _ in w.bad],)])
   if data.get("part") == "d":
     w, outs, bad = run_merge(data["n"], tuple(data["order"]), tuple(data["closes"]))
